@@ -25,8 +25,12 @@ var vsCallee = regexp.MustCompile(`(^|[.:])[vV]erify[A-Za-z0-9]*$`)
 // vsExempt: call sites where dropping the failing element is the specified behaviour. Key: "caller → callee".
 var vsExempt = map[string]string{
 	"app.filterVerifiedRegistrations → app.verifyRegistrationSignature": "filter: registrations that do not verify are skipped and never reach the returned list (the append is on the nil edge)",
+	"core/bcast.Broadcaster.Broadcast → tbls.Verify":                    "trial verification used as a match predicate (which cluster validator signed this attestation); a non-match moves on to the next candidate, other errors are returned",
+	"app/obolapi.Client.GetFullExit → tbls.Verify":                      "trial verification used to find the share index of a partial exit; no match at all is rejected right after the loop (shareIdx == 0)",
 	"dkg.loadDefinition → cluster.Definition.VerifyHashes":              "verdict ignored only under the explicit no-verify flag; decided by C12-L5",
 	"dkg.loadDefinition → cluster.Definition.VerifySignatures":          "verdict ignored only under the explicit no-verify flag; decided by C12-L5",
+	"cluster.LoadClusterLock → cluster.Lock.VerifyHashes":               "verdict ignored only under the explicit no-verify flag; decided by C12-L5",
+	"cluster.LoadClusterLock → cluster.Lock.VerifySignatures":           "verdict ignored only under the explicit no-verify flag; decided by C12-L5",
 }
 
 var vsPartition = map[string][]string{
@@ -49,14 +53,14 @@ func init() {
 
 var vsMutants = map[string][]Mutant{
 	"C12": {
-		{ID: "VS-C12-combine-lock-verify-logged", File: "cmd/combine/combine.go", Expect: "VS",
-			Old: "\t\tif err := lock.VerifyHashes(); err != nil && !noverify {\n\t\t\treturn nil, nil, errors.Wrap(err, \"cluster lock hash verification failed. Run with --no-verify to bypass verification at own risk\")\n\t\t}",
-			New: "\t\tif err := lock.VerifyHashes(); err != nil && !noverify {\n\t\t\tlog.Warn(ctx, \"Cluster lock hash verification failed\", err)\n\t\t}"},
+		{ID: "VS-C12-combine-lock-verify-logged", File: "cmd/createcluster.go", Expect: "VS",
+			Old: "\tif err := def.VerifySignatures(eth1Cl); err != nil {\n\t\treturn cluster.Definition{}, err\n\t}\n\n\tif err := def.VerifyHashes(); err != nil {\n\t\treturn cluster.Definition{}, err\n\t}\n\n\tif def.NumValidators == 0 {",
+			New: "\tif err := def.VerifySignatures(eth1Cl); err != nil {\n\t\tlog.Warn(ctx, \"Definition signature verification failed\", err)\n\t}\n\n\tif err := def.VerifyHashes(); err != nil {\n\t\treturn cluster.Definition{}, err\n\t}\n\n\tif def.NumValidators == 0 {"},
 	},
 	"C11": {
 		{ID: "VS-C11-nodesig-verify-logged", File: "dkg/nodesigs.go", Expect: "VS",
-			Old: "\t\tif verified, err := k1util.Verify65(pubkey, lockHash, msg.GetSignature()); err != nil {\n\t\t\treturn errors.Wrap(err, \"verify signature\")",
-			New: "\t\tif verified, err := k1util.Verify65(pubkey, lockHash, msg.GetSignature()); err != nil {\n\t\t\tlog.Warn(context.Background(), \"Verify signature\", err)\n\t\t\treturn nil"},
+			Old: "\tverified, err := k1util.Verify65(peerPubk, lockHash, sig)\n\tif err != nil {\n\t\treturn errors.Wrap(err, \"verify node signature\")",
+			New: "\tverified, err := k1util.Verify65(peerPubk, lockHash, sig)\n\tif err != nil && len(sig) == 0 {\n\t\treturn errors.Wrap(err, \"verify node signature\")"},
 	},
 }
 
@@ -161,7 +165,7 @@ func vsChecked(fn *ssa.Function, call *ssa.Call) (bool, string) {
 	for _, e := range errs {
 		// tail position: returned as the function's verdict (possibly wrapped is handled by the branch form)
 		for _, r := range an.Returns(fn) {
-			for _, v := range r.Results {
+			for _, v := range returnValues(r) {
 				if v == e {
 					return true, ""
 				}
@@ -185,7 +189,7 @@ func vsChecked(fn *ssa.Function, call *ssa.Call) (bool, string) {
 					continue
 				}
 				hasErr := false
-				for _, v := range r.Results {
+				for _, v := range returnValues(r) {
 					if an.IsErrorType(v.Type()) {
 						hasErr = true
 						if an.IsNilConst(v) {
